@@ -4,8 +4,8 @@ from ..core import f2b, b2f, run_harness, run_driver
 from ..cmp import bits_close
 from .. import samples as S
 
-MODULE = "Momtrop.Props.C12"
-THEOREMS = ["Momtrop.C12.wrapper_ok_pos_finite", "Momtrop.C12.wrapper_err_otherwise", "Momtrop.C12.wrapper_ok_is_impl", "Momtrop.C12.schroeder_exit", "Momtrop.C12.converged_residual", "Momtrop.C12.exit_total"]
+MODULE = "Momtrop.Props.C12Mono"
+THEOREMS = ["Momtrop.C12.wrapper_ok_pos_finite", "Momtrop.C12.wrapper_err_otherwise", "Momtrop.C12.wrapper_ok_is_impl", "Momtrop.C12.schroeder_exit", "Momtrop.C12.converged_residual", "Momtrop.C12.exit_total", "Momtrop.C12.monotone_up_to_tol", "Momtrop.C12.cdf_of_quantile_almost_monotone"]
 RULE = ("(a,p) pairs: a on a grid over [0.05,100] plus every branch constant of the starting-value selection (0.3, 1 -+ 1e-8, 1, 500 is out of "
         "range) and a within 1e-8 of 1; p in {0, 2^-1074, 2^-54, 1-2^-53, 1-2^-52, uniform, p^8 tails near 0 and 1, values that put "
         "b = (1-p) Gamma(a) on 0.01/0.15/0.35/0.45/0.6, P(a,a) +- k 2.5e-7}; quick 1.2e4 pairs, thorough 3e5. Non-trivial: every pair; "
